@@ -158,7 +158,7 @@ CLAIMED = {
     "C14": {
         "text": "Lean 4 theorems (Props/C14.lean) prove for every column/check list, pad function, header and row sequence that the writer's output is exactly the "
                 "accepted rows, padded, in order (C14_emits_accepted), that a rejected write emits nothing and leaves the line counter unchanged (C14_write_row), "
-                "that the verdict is validate_row's (C14_verdict_is_validation) and that padded items have exactly the field widths (C14_padding). Correspondence: "
+                "that the verdict is validate_row's (C14_verdict_is_validation) that padded items have exactly the field widths (C14_padding) and that writing a ++ b is writing a, then b with the writer as a left it, whatever a rejected (C14_incremental). Correspondence: "
                 "row sequences mixing accepted/rejected rows through cutplace.Writer for delimited and fixed CIDs, verdict per write, exact stream contents, and "
                 "read-back of the output through the real Reader.",
         "note": "Trusted: Lean kernel; engine model faithfulness (correspondence); the read-back half of the statement is checked on the implementation only "
